@@ -51,25 +51,25 @@ theorem pyMap_arr_map {α} {f : PV → RV} {emb : α → PV} {g : α → PV} {l 
 
 theorem pyIndex_arr_nat {l : List PV} {i : Nat} (h : i < l.length) :
     pyIndex (.arr l) (.int i) = .ok l[i] := by
-  simp [pyIndex, normIndex_natCast h, List.getD_eq_getElem?_getD, List.getElem?_eq_getElem h]
+  simp [pyIndex, pyIndexSeq, normIndex_natCast h, List.getD_eq_getElem?_getD, List.getElem?_eq_getElem h]
 theorem pyIndex_arr_getD {l : List PV} {i : Nat} (h : i < l.length) :
     pyIndex (.arr l) (.int i) = .ok (l.getD i .none) := by
-  simp [pyIndex, normIndex_natCast h]
+  simp [pyIndex, pyIndexSeq, normIndex_natCast h]
 /-- index given as a non-negative `Int`. -/
 theorem pyIndex_arr_int {l : List PV} {i : Int} (h0 : 0 ≤ i) (h : i < l.length) :
     pyIndex (.arr l) (.int i) = .ok (l.getD i.toNat .none) := by
-  simp [pyIndex, normIndex_of_nonneg h0 h]
+  simp [pyIndex, pyIndexSeq, normIndex_of_nonneg h0 h]
 theorem pyIndex_arr_of_ge {l : List PV} {i : Int} (h : (l.length : Int) ≤ i) :
     pyIndex (.arr l) (.int i) = .error .indexError := by
-  simp [pyIndex, normIndex_of_ge h]
+  simp [pyIndex, pyIndexSeq, normIndex_of_ge h]
 /-- a negative index `-k`, `1 ≤ k ≤ len`. -/
 theorem pyIndex_arr_neg {l : List PV} {k : Nat} (h0 : 0 < k) (h : k ≤ l.length) :
     pyIndex (.arr l) (.int (-(k : Int))) = .ok (l.getD (l.length - k) .none) := by
-  simp [pyIndex, normIndex_neg h0 h]
+  simp [pyIndex, pyIndexSeq, normIndex_neg h0 h]
 @[simp] theorem pyIndex_arr_cons_zero (x : PV) (xs : List PV) : pyIndex (.arr (x :: xs)) (.int 0) = .ok x :=
   pyIndex_arr_nat (l := x :: xs) (i := 0) (by simp)
 @[simp] theorem pyIndex_arr_nil (i : Int) : pyIndex (.arr []) (.int i) = .error .indexError := by
-  simp [pyIndex, normIndex_nil]
+  simp [pyIndex, pyIndexSeq, normIndex_nil]
 /-- a non-integer subscript. -/
 @[simp] theorem pyIndex_arr_arr (l js : List PV) : pyIndex (.arr l) (.arr js) = .error .typeError := rfl
 /-- `arr[i]` is decided by `normIndex` alone. -/
@@ -135,14 +135,14 @@ theorem pySlice_to_neg_one {α} (l : List α) : pySlice l 0 (-1) = l.dropLast :=
 
 theorem pySetItem_arr_nat {l : List PV} {i : Nat} (h : i < l.length) (x : Int) :
     pySetItem (.arr l) (.int i) (.int x) = .ok (.arr (l.set i (.int x))) := by
-  simp [pySetItem, normIndex_natCast h]
+  simp [pySetItem, pySetItemSeq, normIndex_natCast h]
 theorem pySetItem_arr_int {l : List PV} {i : Int} (h0 : 0 ≤ i) (h : i < l.length) (x : Int) :
     pySetItem (.arr l) (.int i) (.int x) = .ok (.arr (l.set i.toNat (.int x))) := by
-  simp [pySetItem, normIndex_of_nonneg h0 h]
+  simp [pySetItem, pySetItemSeq, normIndex_of_nonneg h0 h]
 /-- assignment past the end (`IndexError`), whatever the value. -/
 theorem pySetItem_arr_of_ge {l : List PV} {i : Int} (h : (l.length : Int) ≤ i) (x : PV) :
     pySetItem (.arr l) (.int i) x = .error .indexError := by
-  simp only [pySetItem, asInt?_int, normIndex_of_ge h]
+  simp only [pySetItem, pySetItemSeq, asInt?_int, normIndex_of_ge h]
 
 /-! ## §2 integer arrays -/
 
